@@ -7,6 +7,12 @@
 //	        excluded list is not empty) in the coordinator role, fed a stream of ready messages
 //	wait    the REAL tss.Coordinator.Execute in a non-coordinator role, fed genuine and forged
 //	        initiate / start / fail messages in a scripted order
+//	retry   the REAL tss.Coordinator.Execute whose first attempt fails retryably (silent coordinator,
+//	        or the first Run returns a typed error); the REAL bully elector (over a scripted
+//	        Communication, verif constructor) determines the coordinator of the retried attempt - this
+//	        relayer (nobody answers) or a scripted earlier candidate; during the retried attempt the
+//	        relayer is fed ready / initiate / start messages and FORGED fail messages from peers that
+//	        are not the retried attempt's coordinator (handleError's watcher is told the empty id)
 //
 // and reports what the implementation did.  The session sort keys handed to the Coq model are
 // computed here from the specification (tssfakes.C07SortKey), not taken from the code under test.
@@ -26,7 +32,9 @@ import (
 	"github.com/ChainSafe/sygma-relayer/comm/elector"
 	"github.com/ChainSafe/sygma-relayer/config/relayer"
 	"github.com/ChainSafe/sygma-relayer/tss"
+	"github.com/ChainSafe/sygma-relayer/tss/ecdsa/common"
 	"github.com/ChainSafe/sygma-relayer/tss/util"
+	tsslib "github.com/binance-chain/tss-lib/tss"
 	"github.com/libp2p/go-libp2p/core/peer"
 	"github.com/rs/zerolog"
 
@@ -54,6 +62,17 @@ type Case struct {
 	Excluded []int    `json:"excluded,omitempty"`
 	Via      string   `json:"via,omitempty"` // execute | hook
 	Msgs     []Msg    `json:"msgs,omitempty"`
+	// retry: the first attempt and the bully outcome
+	Cause  string `json:"cause,omitempty"`  // silent | comm | tss | coord
+	Ready1 []int  `json:"ready1,omitempty"` // first attempt, coordinator role: senders of ready messages
+	Start1 []int  `json:"start1,omitempty"` // first attempt, other role: params of the coordinator's start message
+	Winner *int   `json:"winner,omitempty"` // an earlier candidate announces itself; nil = nobody answers, this relayer coordinates
+	Evs    []Ev   `json:"evs,omitempty"`    // retried attempt, coordinator role: ready and fail messages
+}
+
+type Ev struct {
+	Ready bool `json:"ready"` // true: ready message, false: fail message
+	From  int  `json:"from"`
 }
 
 type Out struct {
@@ -75,6 +94,7 @@ type Obs struct {
 	Announced  *[]int   `json:"announced,omitempty"`
 	Run        *[]int   `json:"run,omitempty"`
 	Outs       []Out    `json:"outs,omitempty"`
+	Aborted    bool     `json:"aborted,omitempty"`
 	OtherError string   `json:"other_error,omitempty"`
 }
 
@@ -354,6 +374,253 @@ loop:
 	}
 }
 
+
+// ---- the retried attempt ---------------------------------------------------------------------------
+
+// driveRetry runs one retry case with the given bully window.  raceLost: a winner was scripted but
+// its announcement came too late for the election window (machine under load) - this relayer took
+// the coordinator role instead; the caller repeats the case with a longer window.
+func driveRetry(c Case, t tbl, o *Obs, bullyWait time.Duration) (raceLost bool) {
+	self := t.ids[c.Self]
+	holders := t.pick(c.Holders)
+	h := fk.NewScriptHost(self, t.ids)
+	cm := fk.NewScriptComm()
+	bully := fk.NewScriptComm()
+	inner, err := fk.C07Signing(c.Proc, repo, c.Sid, h, cm, holders, c.T)
+	if err != nil {
+		panic(err)
+	}
+	proc := fk.NewScriptProcess(c.Sid, inner)
+	genuine, _ := elector.NewCoordinatorElector(c.Sid).Coordinator(context.Background(), holders)
+	role1 := genuine == self
+	var injected error
+	switch c.Cause {
+	case "silent":
+	case "comm":
+		injected = &comm.CommunicationError{Peer: genuine, Err: errors.New("stream reset")}
+	case "coord":
+		if len(c.Excluded) != 1 {
+			panic("retry case: cause coord needs exactly one excluded peer")
+		}
+		injected = &tss.CoordinatorError{Peer: t.ids[c.Excluded[0]]}
+	case "tss":
+		var culprits []*tsslib.PartyID
+		for _, x := range c.Excluded {
+			culprits = append(culprits, common.CreatePartyID(t.ids[x].String()))
+		}
+		injected = tsslib.NewError(errors.New("round failed"), "signing", 3, nil, culprits...)
+	default:
+		panic("retry case: unknown cause " + c.Cause)
+	}
+	proc.Behave = func(n int, ctx context.Context) error {
+		if n == 0 && injected != nil {
+			return injected
+		}
+		<-ctx.Done() // the retried attempt's process keeps running until the session ends
+		return nil
+	}
+	factory := elector.NewCoordinatorElectorFactoryWithComm(h, bully, relayer.BullyConfig{
+		PingWaitTime: time.Second, PingBackOff: time.Second, PingInterval: time.Second,
+		ElectionWaitTime: 5 * time.Millisecond, BullyWaitTime: bullyWait,
+	})
+	co := tss.NewCoordinator(h, cm, factory)
+	co.CoordinatorTimeout = time.Hour
+	co.TssTimeout = time.Hour
+	co.InitiatePeriod = time.Hour
+	if c.Cause == "silent" {
+		if role1 || c.Winner != nil {
+			panic("retry case: a silent coordinator needs the non-coordinator role and no scripted winner")
+		}
+		co.CoordinatorTimeout = 40 * time.Millisecond
+	}
+	c2 := self
+	if c.Winner != nil {
+		c2 = t.ids[*c.Winner]
+	}
+
+	ctx, cancel := context.WithCancel(context.Background())
+	defer cancel()
+	done := make(chan struct{})
+	res := make(chan interface{}, 8)
+	var ferr error
+	go func() {
+		defer close(done)
+		ferr = co.Execute(ctx, []tss.TssProcess{proc}, res)
+	}()
+	d := &fk.C07Driver{Comm: cm, Proc: proc, Sid: c.Sid, Done: done}
+	if c.Winner != nil {
+		w := t.ids[*c.Winner]
+		bully.OnSubscribe = func(s *fk.ScriptSub) {
+			if s.Type == comm.CoordinatorSelectMsg {
+				fk.ScriptPush(s, w, []byte{}, fk.C07Deadline(), done)
+			}
+		}
+	}
+
+	// ---- first attempt
+	nfirst := 0
+	if c.Cause != "silent" {
+		if role1 {
+			for _, s := range c.Ready1 {
+				d.Deliver(comm.TssReadyMsg, 1, t.ids[s], nil)
+			}
+		} else {
+			d.Deliver(comm.TssInitiateMsg, 1, genuine, []byte{})
+			d.Deliver(comm.TssStartMsg, 1, genuine, fk.C07StartPayload(t.pick(c.Start1)))
+		}
+		if !d.WaitRuns(1) {
+			o.OtherError = "first attempt did not reach Run"
+			cancel()
+			d.WaitDone()
+			return false
+		}
+		nfirst = 1
+	}
+	ready1 := cm.CountSent(comm.TssReadyMsg)
+	init1 := cm.CountSent(comm.TssInitiateMsg)
+
+	// ---- retried attempt
+	readyOrd, startOrd := 1, 1
+	if c.Cause != "silent" && role1 {
+		readyOrd = 2
+	}
+	if c.Cause == "silent" || !role1 {
+		startOrd = 2
+	}
+	sub := cm.WaitAnySub(c.Sid, []fk.ScriptWant{{Type: comm.TssReadyMsg, Ordinal: readyOrd}, {Type: comm.TssStartMsg, Ordinal: startOrd}}, done, fk.C07Deadline())
+	switch {
+	case sub == nil:
+		select {
+		case <-done:
+		default:
+			d.NoteStuck()
+		}
+		o.OtherError = "no retried attempt"
+	case sub.Type == comm.TssReadyMsg && c.Winner != nil:
+		raceLost = true
+	case sub.Type == comm.TssStartMsg && c.Winner == nil:
+		o.OtherError = "nobody answered the election, yet this relayer waits for somebody's start"
+	case sub.Type == comm.TssReadyMsg:
+		for _, e := range c.Evs {
+			from := t.ids[e.From]
+			if e.Ready {
+				// once the process runs the ready loop is over: further ready messages are not read
+				if _, active, _ := proc.RunState(); active {
+					continue
+				}
+				d.Deliver(comm.TssReadyMsg, readyOrd, from, nil)
+			} else {
+				d.Deliver(comm.TssFailMsg, 2, from, []byte{})
+			}
+		}
+	default:
+	loop:
+		for _, m := range c.Msgs {
+			from := t.ids[m.From]
+			terminal := false
+			switch m.Type {
+			case "initiate":
+				d.Deliver(comm.TssInitiateMsg, startOrd, from, []byte{})
+			case "start":
+				payload := []byte("{not a start message")
+				if !m.Bad {
+					payload = fk.C07StartPayload(t.pick(m.Params))
+				}
+				if d.Deliver(comm.TssStartMsg, startOrd, from, payload) && from == c2 {
+					if m.Bad {
+						terminal = true
+					} else {
+						d.WaitRuns(nfirst + 1)
+					}
+				}
+			case "fail":
+				// handleError's watcher: the second fail subscription of the session
+				d.Deliver(comm.TssFailMsg, 2, from, []byte{})
+			default:
+				panic("unknown message type " + m.Type)
+			}
+			if terminal {
+				d.WaitDone()
+				break loop
+			}
+			select {
+			case <-done:
+				break loop
+			default:
+			}
+		}
+	}
+	cancel()
+	if !d.WaitDone() {
+		o.OtherError = "Execute did not return"
+		return false
+	}
+	if raceLost {
+		return true
+	}
+	if c.Winner == nil && cm.CountSent(comm.TssInitiateMsg) == init1 && o.OtherError == "" {
+		// the coordinator of the retried attempt broadcasts initiate before anything else
+		o.OtherError = "this relayer did not initiate the retried attempt"
+	}
+	k := 0
+	for _, s := range cm.Sent() {
+		if s.Type == comm.TssReadyMsg {
+			if k >= ready1 {
+				p := unknownPeer
+				if len(s.To) == 1 {
+					p = t.index(s.To[0])
+				}
+				o.Outs = append(o.Outs, Out{Kind: "ready", Peer: p})
+			}
+			k++
+		}
+	}
+	for i, r := range proc.Runs() {
+		if i < nfirst {
+			continue
+		}
+		ps, ok := fk.C07DecodeParams(r.Params)
+		a := t.indices(ps)
+		if !ok || r.Coordinator != (c.Winner == nil) {
+			a = []int{unknownPeer}
+		}
+		o.Outs = append(o.Outs, Out{Kind: "run", Params: a})
+		if c.Winner == nil {
+			if o.Run != nil {
+				o.OtherError = "more than one Run in the retried attempt"
+			}
+			o.Run = &a
+		}
+	}
+	var syn *json.SyntaxError
+	switch {
+	case ferr == nil:
+	case strings.Contains(ferr.Error(), "tss fail message received"):
+		o.Outs = append(o.Outs, Out{Kind: "abort"})
+		o.Aborted = true
+	case errors.As(ferr, &syn):
+		o.Outs = append(o.Outs, Out{Kind: "badstart"})
+	default:
+		o.OtherError = ferr.Error()
+	}
+	return false
+}
+
+func runRetry(c Case, t tbl, o *Obs) {
+	wait := 30 * time.Millisecond
+	if c.Winner != nil {
+		wait = 300 * time.Millisecond
+	}
+	// The bully election is exercised, not verified: if the scripted winner's announcement lost the
+	// race against BullyWaitTime (machine under load), repeat once with a much longer window.
+	if driveRetry(c, t, o, wait) {
+		*o = Obs{Keys: o.Keys, Coord: -1, CoordPerm: -1}
+		if driveRetry(c, t, o, 1500*time.Millisecond) {
+			o.OtherError = "the scripted winner of the bully election lost the race twice"
+		}
+	}
+}
+
 func run(c Case) Obs {
 	t := table(c)
 	o := Obs{Keys: keys(t, c.Sid), Coord: -1, CoordPerm: -1}
@@ -366,6 +633,8 @@ func run(c Case) Obs {
 		runSubset(c, t, &o)
 	case "wait":
 		runWait(c, t, &o)
+	case "retry":
+		runRetry(c, t, &o)
 	default:
 		panic("unknown kind " + c.Kind)
 	}
@@ -665,12 +934,208 @@ func genWait(r *vgen.Rng, tier string) []Case {
 	return out
 }
 
+
+func sortedByKey(peers []string, sid string, is []int) []int {
+	out := append([]int{}, is...)
+	key := func(i int) uint64 { id, _ := peer.Decode(peers[i]); return fk.C07SortKey(id, sid) }
+	for i := 1; i < len(out); i++ {
+		for j := i; j > 0 && key(out[j]) > key(out[j-1]); j-- {
+			out[j], out[j-1] = out[j-1], out[j]
+		}
+	}
+	return out
+}
+
+// genRetry: the first attempt fails retryably; during the retried attempt forged fail messages
+// arrive from peers that are not its coordinator.
+func genRetry(r *vgen.Rng, tier string) []Case {
+	var out []Case
+	n := 36
+	if tier == "thorough" {
+		n = 300
+	}
+	for i := 0; i < n; i++ {
+		nh := r.Range(4, 6)
+		m := nh + r.Intn(2)
+		peers, sid := genTable(r, m), genSid(r)
+		holders := shuffled(r, seq(nh))
+		order := sortedByKey(peers, sid, holders)
+		t := r.Range(1, nh-3)
+		c := Case{Kind: "retry", Peers: peers, Sid: sid, Holders: holders, T: t, Proc: vgen.Pick(r, []string{"ecdsa", "frost"})}
+		// a third each: coordinator of the first attempt (then nobody ranks earlier: it also coordinates
+		// the retried one), other role with a scripted winner, other role winning the election itself
+		role1 := i%3 == 0
+		wantWinner := i%3 == 1
+		switch {
+		case role1:
+			c.Self = order[0]
+		case wantWinner:
+			c.Self = order[r.Range(2, nh-1)]
+		default:
+			c.Self = order[r.Range(1, nh-1)]
+		}
+		others := func() []int {
+			var xs []int
+			for _, h := range holders {
+				if h != c.Self {
+					xs = append(xs, h)
+				}
+			}
+			return shuffled(r, xs)
+		}
+		c.Ready1 = others()
+		c.Start1 = shuffled(r, holders)[:t+1]
+		causes := []string{"comm", "tss", "coord"}
+		if !role1 && !wantWinner {
+			causes = append(causes, "silent")
+		}
+		c.Cause = causes[(i/3)%len(causes)]
+		switch c.Cause {
+		case "tss":
+			c.Excluded = others()[:r.Range(1, 2)]
+		case "coord":
+			c.Excluded = []int{others()[0]}
+			if !role1 {
+				c.Excluded = []int{order[0]}
+			}
+		case "silent":
+			c.Excluded = []int{order[0]}
+		}
+		excluded := map[int]bool{}
+		for _, x := range c.Excluded {
+			excluded[x] = true
+		}
+		// the scripted winner: an earlier candidate than this relayer that is not a culprit
+		if wantWinner {
+			var cands []int
+			for _, p := range order {
+				if p == c.Self {
+					break
+				}
+				if !excluded[p] {
+					cands = append(cands, p)
+				}
+			}
+			if len(cands) > 0 {
+				w := vgen.Pick(r, cands)
+				c.Winner = &w
+			}
+		}
+		forger := func(not int) int { // any peer of the table except this relayer and [not]
+			for {
+				p := r.Intn(m)
+				if p != c.Self && p != not {
+					return p
+				}
+			}
+		}
+		if c.Winner == nil {
+			// this relayer coordinates the retried attempt: ready stream (everybody, culprits too, a
+			// repetition) with forged fail messages at random places, also after the process started
+			var evs []Ev
+			for _, p := range shuffled(r, append(seq(m), r.Intn(m))) {
+				if p != c.Self {
+					evs = append(evs, Ev{Ready: true, From: p})
+				}
+			}
+			nf := r.Range(1, 4)
+			for k := 0; k < nf; k++ {
+				from := forger(-1)
+				if k == 0 && order[0] != c.Self {
+					from = order[0] // the first attempt's coordinator is not the retried attempt's
+				}
+				at := r.Intn(len(evs) + 1)
+				evs = append(evs[:at], append([]Ev{{Ready: false, From: from}}, evs[at:]...)...)
+			}
+			c.Evs = evs
+		} else {
+			co := *c.Winner
+			params := func() []int { return shuffled(r, seq(m))[:r.Range(0, m)] }
+			I := Msg{Type: "initiate", From: co}
+			S := func() Msg { return Msg{Type: "start", From: co, Params: params()} }
+			B := Msg{Type: "start", From: co, Bad: true}
+			F := Msg{Type: "fail", From: co} // as coded the retry-phase watcher ignores it too
+			var genuine []Msg
+			switch r.Intn(6) {
+			case 0:
+				genuine = []Msg{I, S()}
+			case 1:
+				genuine = []Msg{I, I, S()}
+			case 2:
+				genuine = []Msg{I, B}
+			case 3:
+				genuine = []Msg{S()}
+			case 4:
+				genuine = []Msg{I, S(), F}
+			default:
+				genuine = []Msg{I, F, S()}
+			}
+			forged := func() Msg {
+				from := forger(co)
+				switch r.Intn(6) {
+				case 0:
+					return Msg{Type: "initiate", From: from}
+				case 1:
+					return Msg{Type: "start", From: from, Params: params()}
+				case 2:
+					return Msg{Type: "start", From: from, Bad: true}
+				default:
+					return Msg{Type: "fail", From: from}
+				}
+			}
+			nf := r.Range(2, 8)
+			var msgs []Msg
+			gi := 0
+			running, quietLeft, termDone := false, 2, false
+			for (gi < len(genuine) || nf > 0) && !termDone {
+				takeGenuine := gi < len(genuine) && (nf == 0 || r.Chance(1, 3))
+				var mm Msg
+				if takeGenuine {
+					mm = genuine[gi]
+					gi++
+				} else if nf > 0 {
+					mm = forged()
+					nf--
+				} else {
+					break
+				}
+				if running && mm.Type != "fail" {
+					if quietLeft == 0 {
+						continue
+					}
+					quietLeft--
+				}
+				msgs = append(msgs, mm)
+				if mm.From == co {
+					if mm.Type == "start" && !mm.Bad {
+						running = true
+					}
+					if mm.Type == "start" && mm.Bad && !running {
+						termDone = true
+					}
+				}
+			}
+			// at least one forged fail message while the process runs (or at the end)
+			msgs = append(msgs, Msg{Type: "fail", From: forger(co)})
+			if order[0] != co && order[0] != c.Self {
+				// the first attempt's coordinator is not the retried attempt's
+				at := r.Intn(len(msgs) + 1)
+				msgs = append(msgs[:at], append([]Msg{{Type: "fail", From: order[0]}}, msgs[at:]...)...)
+			}
+			c.Msgs = msgs
+		}
+		out = append(out, c)
+	}
+	return out
+}
+
 func gen(r *vgen.Rng, tier string) []Case {
 	var out []Case
 	out = append(out, genElect(r, tier)...)
 	out = append(out, genParams(r, tier)...)
 	out = append(out, genSubset(r, tier)...)
 	out = append(out, genWait(r, tier)...)
+	out = append(out, genRetry(r, tier)...)
 	return out
 }
 
@@ -697,8 +1162,43 @@ func OptPL(xs *[]int) string {
 }
 func KL(ks []uint64) string { return vgen.ListOf(ks, vgen.N) }
 
+func coqMsg(m Msg) string {
+	switch m.Type {
+	case "initiate":
+		return "MInitiate " + P(m.From)
+	case "start":
+		if m.Bad {
+			return "MStart " + P(m.From) + " None"
+		}
+		return "MStart " + P(m.From) + " " + vgen.Some(PL(m.Params))
+	default:
+		return "MFail " + P(m.From)
+	}
+}
+
+func coqOut(x Out) string {
+	switch x.Kind {
+	case "ready":
+		return "OReady " + P(x.Peer)
+	case "run":
+		return "ORun " + PL(x.Params)
+	case "badstart":
+		return "OBadStart"
+	default:
+		return "OAbort"
+	}
+}
+
 func coq(c Case, o Obs) string {
 	switch c.Kind {
+	case "retry":
+		if c.Winner != nil {
+			return "RetryWait " + KL(o.Keys) + " " + PL(c.Holders) + " " + P(c.Self) + " " + P(*c.Winner) + " " +
+				vgen.ListOf(c.Msgs, coqMsg) + " " + vgen.ListOf(o.Outs, coqOut) + " " + vgen.Bool(o.OtherError != "")
+		}
+		return "RetryCoord " + KL(o.Keys) + " " + PL(c.Holders) + " " + vgen.Z(int64(c.T)) + " " + PL(c.Excluded) + " " + P(c.Self) + " " +
+			vgen.ListOf(c.Evs, func(e Ev) string { return vgen.Pair(vgen.Bool(e.Ready), P(e.From)) }) + " " +
+			OptPL(o.Run) + " " + vgen.Bool(o.Aborted) + " " + vgen.Bool(o.OtherError != "")
 	case "elect":
 		return "Elect " + KL(o.Keys) + " " + PL(c.Holders) + " " + PL(c.Perm) + " " + PL(o.Sorted) + " " + PL(o.SortedPerm) +
 			" " + OptP(o.Coord) + " " + OptP(o.CoordPerm)
@@ -743,6 +1243,12 @@ func coq(c Case, o Obs) string {
 
 func kind(c Case) string {
 	switch c.Kind {
+	case "retry":
+		role := "coord"
+		if c.Winner != nil {
+			role = "wait"
+		}
+		return "retry:" + role + ":" + c.Cause
 	case "subset":
 		ex := "noexcl"
 		if len(c.Excluded) > 0 {
@@ -785,6 +1291,17 @@ func main() {
 				return o.Announced != nil
 			case "wait":
 				return len(c.Msgs) >= 2
+			case "retry":
+				for _, m := range c.Msgs {
+					if m.Type == "fail" {
+						return o.OtherError == ""
+					}
+				}
+				for _, e := range c.Evs {
+					if !e.Ready {
+						return o.OtherError == ""
+					}
+				}
 			}
 			return false
 		},
@@ -792,7 +1309,9 @@ func main() {
 			"params: random committees / thresholds / ready lists on the real ECDSA and FROST Signing.Ready+StartParams; " +
 			"subset: real Coordinator in the coordinator role fed ready streams with duplicates, outsiders, excluded peers; " +
 			"wait: real Coordinator.Execute in a non-coordinator role fed genuine and 0..12 forged initiate/start/fail messages in random interleavings; " +
-			"distinct = distinct input JSON; non-trivial = >= 2 listed peers / non-empty ready list / a subset was announced / >= 2 messages",
+			"retry: real Coordinator.Execute whose first attempt fails retryably ({silent coordinator, CommunicationError, tss.Error with culprits, CoordinatorError} x {coordinator, other} role), " +
+			"real bully election won by this relayer or by a scripted earlier candidate, retried attempt fed ready / initiate / start messages and forged fail messages from non-coordinators (before and while the process runs); " +
+			"distinct = distinct input JSON; non-trivial = >= 2 listed peers / non-empty ready list / a subset was announced / >= 2 messages / a fail message during the retried attempt",
 		ShardSize: 200,
 	})
 }
